@@ -10,7 +10,7 @@ CFG = {'streams': [{'name': 'C08',
               'n_thorough': 1200,
               'thorough_seeds': 2,
               'what_fails': 'lazy execution differs from the model of lazy*.rs'}],
- 'rule': 'generated files with 2-5 stanzas (as C01) x permutations of their stanzas x sources; graphs compared up to renumbering; non-trivial = at '
+ 'rule': 'generated files with 2-5 stanzas (as C01) x permutations of their stanzas x sources; graphs compared up to renumbering; 15% of the cases carry three single-match definitions of one scoped name (two on the module, one on its first child) at random positions, which must fail in EVERY order; non-trivial = at '
          'least 3 stanzas and a scoped variable is used',
  'explanation': 'Theorems. Reordering stanzas permutes the list of blocks (stanza, match) that run_lazy executes (stanza_permutation_is_block_permutation; the two-file forms lazy_stanza_order_iso_partial etc. relate a file to an IDEALISED reordering whose stanza records are the same, locations included - re-parsing a reordered text changes locations and merged-query indices, which is covered by the block-permutation theorems plus the index bridge, not by the two-file form); the whole-run theorems hold of the inputs the harness really records (…_real_partial: fragment predicates on normalize_file with the merged-query matches, idx_agree = assumptions A1-A3). WHOLE RUN on a fragment '
                 '(lazy_block_order_iso_partial, Proofs/BlockPerm*.v): if the run on ms succeeds then on every permutation ms\' the run succeeds from '
